@@ -17,6 +17,7 @@ from contracts import common as K
 from contracts import envs as E
 
 ENV = "Sokoban"
+PROPS = ["C01", "C05", "C07", "C09", "C11", "C12"]   # no action mask (C04), not a CO problem (C06), per-step reward (C08 n/a, DESIGN 6)
 G = 10
 EMPTY, WALL, TARGET, AGENT, BOX = 0, 1, 2, 3, 4
 NOOP = -1
@@ -228,4 +229,25 @@ def problems(env, cfg, tier):
     reset = dict(title=f"Sokoban.reset@{cfg}", args=(state, jnp.zeros(2, jnp.uint32)), requires=gen_post, ensures=reset_ens,
                  targets=[type(env).reset],
                  note="generator replaced by its post-condition (contract boundary; the generator's own contract is C10)")
-    return [step, noop, mv, reset]
+    out = [step, noop, mv, reset]
+
+    # ---- the light generator of this configuration run for real (randint replaced by its contract stub): every key
+    from jumanji.environments.routing.sokoban.generator import ToyGenerator
+
+    if isinstance(env.generator, ToyGenerator):
+        def toy_ens(key):
+            s, ts = env.reset(key)
+            o = ts.observation
+            res = {"C07.reset_four_boxes": n_boxes(s.variable_grid) == N_BOXES, "C11.reset_step_count_zero": s.step_count == 0,
+                   "C12.reset_obs.grid_variable": o.grid[..., 0] == s.variable_grid, "C12.reset_obs.grid_fixed": o.grid[..., 1] == s.fixed_grid,
+                   "C12.reset_obs.step_count": o.step_count == s.step_count,
+                   "canary.reset_always_level_1": s.agent_location[0] == 1}
+            for k, v in inv(s, jnp.int32(1)).items():
+                res["C07.reset_" + k] = v
+            res.update(K.spec_bounds(env.observation_spec, o, "C01.reset_obs_bounds"))
+            return res
+
+        out.append(dict(title=f"Sokoban.reset[ToyGenerator]@{cfg}", args=(jnp.zeros(2, jnp.uint32),), ensures=toy_ens,
+                        targets=[type(env).reset, ToyGenerator.__call__], props=["C01", "C07", "C11", "C12"],
+                        note="real generator; jax.random.randint replaced by its assumed contract (any index in range): all keys"))
+    return out
